@@ -69,6 +69,19 @@ def main(argv):
         return 0
 
     t0 = time.time()
+    # the parts that run in this process (self-test, replay tier) get a hard limit as well: a block there is a
+    # harness error (exit 2), never a hanging check
+    import signal
+
+    def on_alarm(sig, frm):
+        sys.stdout.write(f"HARNESS-ERROR property={prop} the self-test / replay tier blocked (main-process watchdog)\n")
+        sys.stdout.flush()
+        os._exit(2)
+    try:
+        signal.signal(signal.SIGALRM, on_alarm)
+        signal.alarm(int(os.environ.get("MVF_MAIN_WATCHDOG_S", "600")))
+    except Exception:  # noqa
+        pass
     if hasattr(mod, "self_test"):
         err = mod.self_test()
         if err:
@@ -83,6 +96,7 @@ def main(argv):
             nrep += 1
         except Exception:
             acc0.harness_errors.append(f"replay {path}:\n" + traceback.format_exc()[-2000:])
+    signal.alarm(0)
     part0 = acc0.to_json()
     part0["evaluations"] = 0          # the replay tier is not counted as generated cases
     part0["nontrivial"] = []
